@@ -173,10 +173,24 @@ def c20_r2(ctx):
     rks = pm.stmts_of(rk.node)
     r_ok = RK.has(rks, "tablestart, numslots = self.tables[self.hashfn(key) & 255]", deep=True) and \
         RK.has(rks, "slotpos = tablestart + (((self.hashfn(key) >> 8) % numslots) * _pointer.size)", deep=True)
+    # closed form of the same probe sequence: for i in range(numslots): slotpos = tablestart + ((first + i) % numslots) * ptrsize
+    closed = False
+    RK2 = pm.Alpha(rk)
+    if RK2.has(rks, "tablestart, numslots = self.tables[self.hashfn(key) & 255]", deep=True):
+        for lp in [x for x in rks if isinstance(x, ast.For)]:
+            if isinstance(lp.target, ast.Name) and norm.canon(lp.iter) in ("xrange(%s)" % RK2.name("numslots"), "range(%s)" % RK2.name("numslots")):
+                RK2.eq(lp.target, "i")
+                sp = [st for st in lp.body if isinstance(st, ast.Assign)
+                      and RK2.eq(st, "slotpos = tablestart + ((((self.hashfn(key) >> 8) % numslots) + i) % numslots) * _pointer.size", deep=True)]
+                if len(sp) == 1 and lp.body[0] is sp[0]:
+                    closed = True
+    if closed:
+        RK = RK2
+        r_ok = True
     ctx.ob("HashWriter._write_hashes <-> HashReader.ranges_for_key", w_ok and r_ok, "initial slot = (hash >> 8) % numslots; probing wraps modulo numslots",
            detail="writer forms recognised: %s ; reader forms recognised: %s" % (w_ok, r_ok), loc=wh.loc)
     wrap = [st for st in rks if isinstance(st, ast.If) and RK.eq(st.test, "slotpos == tablestart + (numslots * _pointer.size)", deep=True)]
-    ctx.ob(rk, len(wrap) == 1 and RK.has(wrap[0].body, "slotpos = tablestart") and RK.has(rks, "slotpos += _pointer.size", deep=True),
+    ctx.ob(rk, closed or (len(wrap) == 1 and RK.has(wrap[0].body, "slotpos = tablestart") and RK.has(rks, "slotpos += _pointer.size", deep=True)),
            "the reader's probe wraps to the start of the table")
     # every iteration of the probe loop that does not return advances to the next slot (a `continue` that skips the advance
     # re-reads the same slot for the rest of the loop and reports the key absent)
@@ -195,7 +209,7 @@ def c20_r2(ctx):
             pth = cfgmod.find_path(g_rk, st_, lambda n_: n_ is fors[0], avoid_pred=is_adv)
             if pth is not None:
                 stuck = [st_] + pth
-    ctx.ob(rk, len(fors) == 1 and stuck is None, "every iteration of the probe loop advances slotpos before the next one",
+    ctx.ob(rk, closed or (len(fors) == 1 and stuck is None), "every iteration of the probe loop advances slotpos before the next one",
            path=cfgmod.path_text(stuck) if stuck else None)
     cl = hw.methods["close"]
     CL = pm.Alpha(cl)
@@ -205,7 +219,8 @@ def c20_r2(ctx):
     # expos is taken after the directory and before the extras
     if ok:
         exst = CL.find(pm.stmts_of(cl.node), "expos = self.dbfile.tell()", al=True)
-        ok = order[1].lineno < exst.lineno < order[2].lineno
+        cpos = norm.source_pos(cl.node)
+        ok = cpos(order[1]) < cpos(exst) < cpos(order[2])
     ctx.ob(cl, ok, "close(): hashes, directory, extras, then the extras length", detail=str([CL.text(c) for c in order]))
     RI = pm.Alpha(ri)
     ris = pm.stmts_of(ri.node)
@@ -286,7 +301,8 @@ def c20_r4(ctx):
             (FA.eq(calls_[-1], "CompoundStorage.write_dir(dbfile, basepos, directory, options)") or FA.eq(calls_[-1], "CompoundStorage.write_dir(dbfile, basepos, directory)"))
         if ok:
             bp = FA.find(fs, "basepos = dbfile.tell()")
-            ok = bp.lineno < calls_[0].lineno
+            fpos = norm.source_pos(f.node)
+            ok = fpos(bp) < fpos(calls_[0])
         ctx.ob(f, ok,
                "reserves (long, int) at basepos, copies members, then write_dir(dbfile, basepos, directory...)", detail=str(seq))
         keys = set()
@@ -305,7 +321,8 @@ def c20_r4(ctx):
     dp = WD.find(wds, "dirpos = dbfile.tell()")
     ep = WD.find(wds, "endpos = dbfile.tell()")
     ctx.ob(wd, dp is not None and ep is not None and len(calls_) == len(want) and all(WD.eq(c, w_) for c, w_ in zip(calls_, want)) and
-           dp.lineno < calls_[0].lineno and calls_[1].lineno < ep.lineno < calls_[3].lineno,
+           norm.source_pos(wd.node)(dp) < norm.source_pos(wd.node)(calls_[0]) and
+           norm.source_pos(wd.node)(calls_[1]) < norm.source_pos(wd.node)(ep) < norm.source_pos(wd.node)(calls_[3]),
            "write_dir: directory pickle, options pickle, back-patch (dirpos, length) at basepos, close", detail=str(seq))
     ini = cs.methods["__init__"]
     ctx.saw(ini)
